@@ -186,7 +186,7 @@ def Fraction_half():
 
 # functions whose meaning the analyser knows (so a remainder built from them is a definite difference, not an unknown)
 BASE_FNS = {'ln', 'abs', 'len', 'LRc', 'OS', 'CHI', 'at', 'argmin', 'argsort', 'arange', 'exp10', 'max', 'min',
-            'rev', 'argmax', 'sort', 'slice', 'cumsum', 'int', 'floor', 'ceil', 'nanmax', 'nanmin', 'any', 'all', 'power', 'exp'}
+            'rev', 'argmax', 'sort', 'slice', 'cumsum', 'invperm', 'int', 'floor', 'ceil', 'nanmax', 'nanmin', 'any', 'all', 'power', 'exp'}
 
 
 def compare(ctx, rule, instance, where, code, ref_poly, ref_dims=None, facts=None, vocab=None, fns=None, findings=(), detail_ok=''):
